@@ -281,4 +281,49 @@ example : verifySignatures recA [⟨2, [10]⟩] [[0xA], [0xB], [0xA]] = true := 
 example : verifySignatures recA [⟨0, [10]⟩, ⟨1, [11]⟩] [[0xA], [0xB], [0xA]] = true := by decide
 example : verifySignatures recA [⟨0, [10]⟩, ⟨2, [10]⟩] [[0xA], [0xB], [0xA]] = false := repeated_address_twice_rejected recA _ 0 2 [10] [10] rfl
 
+/-! ## Signature encodings -/
+
+private def ValidP (l : List (Nat × Option Addr)) (addrs : List Addr) : Prop :=
+  (∀ p ∈ l, p.1 < addrs.length ∧ p.2 = addrs[p.1]?) ∧
+  l.Pairwise (fun a b => a.1 < b.1) ∧ l.Pairwise (fun a b => a.2 ≠ b.2)
+
+private theorem valid_iff_map (recover : Bytes → Option Addr) (sigs : List Sig) (addrs : List Addr) :
+    Valid recover sigs addrs ↔ ValidP (sigs.map fun s => (s.idx, recover s.sig)) addrs := by
+  simp [Valid, ValidP, List.pairwise_map]
+
+/-- Verification looks at a signature only through the index it claims and the address it recovers to: two signature lists that
+agree on those, record for record, get the same verdict — whatever the 65 bytes are (in particular `(r, s, v)` and the second
+encoding `(r, N − s, v ⊕ 1)` of the same ECDSA signature, which the recovery oracle maps to the same address). -/
+theorem encoding_irrelevant (recover : Bytes → Option Addr) (sigs sigs' : List Sig) (addrs : List Addr)
+    (h : sigs.map (fun s => (s.idx, recover s.sig)) = sigs'.map (fun s => (s.idx, recover s.sig))) :
+    verifySignatures recover sigs addrs = verifySignatures recover sigs' addrs := by
+  apply Bool.eq_iff_iff.mpr
+  rw [verify_iff, verify_iff, valid_iff_map, valid_iff_map, h]
+
+/-- Replacing the bytes of one signature, anywhere in the list, by other bytes that recover to the same address changes nothing:
+an accepted list stays accepted (and a rejected one rejected). -/
+theorem same_signer_other_bytes (recover : Bytes → Option Addr) (pre post : List Sig) (i : Nat) (sg sg' : Bytes) (addrs : List Addr)
+    (h : recover sg = recover sg') :
+    verifySignatures recover (pre ++ ⟨i, sg⟩ :: post) addrs = verifySignatures recover (pre ++ ⟨i, sg'⟩ :: post) addrs :=
+  encoding_irrelevant recover _ _ addrs (by simp [h])
+
+/-- … and so does replacing all of them. -/
+theorem same_signers_other_bytes (recover : Bytes → Option Addr) (sigs : List Sig) (tw : Bytes → Bytes) (addrs : List Addr)
+    (h : ∀ s ∈ sigs, recover (tw s.sig) = recover s.sig) :
+    verifySignatures recover (sigs.map fun s => ⟨s.idx, tw s.sig⟩) addrs = verifySignatures recover sigs addrs := by
+  apply encoding_irrelevant
+  rw [List.map_map]
+  apply List.map_congr_left
+  intro s hs
+  simp [h s hs]
+
+def recT : Bytes → Option Addr := fun s => match s with
+  | [10] => some [0xA] | [20] => some [0xA] | [12] => some [0xC] | [22] => some [0xC] | _ => none
+example : verifySignatures recT [⟨0, [20]⟩, ⟨2, [12]⟩] [[0xA], [0xB], [0xC]] = true :=
+  (same_signer_other_bytes recT [] [⟨2, [12]⟩] 0 [10] [20] _ rfl).symm.trans (by decide)
+example : verifySignatures recT (([⟨0, [10]⟩, ⟨2, [12]⟩] : List Sig).map fun s => ⟨s.idx, s.sig.map (· + 10)⟩) [[0xA], [0xB], [0xC]] = true :=
+  (same_signers_other_bytes recT [⟨0, [10]⟩, ⟨2, [12]⟩] (fun b => b.map (· + 10)) _ (by decide)).trans (by decide)
+example : verifySignatures recT [⟨0, [10]⟩, ⟨1, [20]⟩] [[0xA], [0xA], [0xC]] = false :=
+  repeated_address_twice_rejected recT _ 0 1 [10] [20] rfl
+
 end Whv.C06
